@@ -2990,6 +2990,9 @@ struct RawConn {
     flows: Vec<(Flow, bool, u8, u8)>,
     extras: Vec<(Op, bool, u8, u8)>,
     tails: Vec<Vec<Op>>,
+    /// datagram storm: `send_datagram_wait` calls (len, lazy) dealt round-robin to the tasks of one side,
+    /// so that several senders compete for a small send buffer
+    storm: (bool, Vec<(u16, u8)>),
 }
 
 fn arb_conn() -> impl Strategy<Value = RawConn> {
@@ -2999,8 +3002,9 @@ fn arb_conn() -> impl Strategy<Value = RawConn> {
         proptest::collection::vec((arb_flow(), any::<bool>(), any::<u8>(), any::<u8>()), 0..5),
         proptest::collection::vec((arb_extra(), any::<bool>(), any::<u8>(), any::<u8>()), 0..6),
         proptest::collection::vec(arb_tail(), 6),
+        (any::<bool>(), prop_oneof![9 => Just(vec![]), 1 => proptest::collection::vec((500u16..1_250, prop_oneof![1 => Just(0u8), 1 => 1u8..4]), 4..14)]),
     )
-        .prop_map(|((start_delay_us, connect_cancel), (a, b), flows, extras, tails)| RawConn { start_delay_us, connect_cancel, n_tasks: [a, b], flows, extras, tails })
+        .prop_map(|((start_delay_us, connect_cancel), (a, b), flows, extras, tails, storm)| RawConn { start_delay_us, connect_cancel, n_tasks: [a, b], flows, extras, tails, storm })
 }
 
 fn compile(rc: RawConn) -> ConnProg {
@@ -3031,6 +3035,14 @@ fn compile(rc: RawConn) -> ConnProg {
         let at = (pos as usize * (v.len() + 1)) >> 8;
         v.insert(at, op);
     }
+    {
+        let (client, storm) = &rc.storm;
+        let s = if *client { 0 } else { 1 };
+        let n = rc.n_tasks[s];
+        for (i, (len, lazy)) in storm.iter().enumerate() {
+            tasks[s][i % n].push(Op::SendDgramWait { len: *len, c: Cancel::default(), lazy: *lazy });
+        }
+    }
     let mut k = 0;
     for s in 0..2 {
         for t in tasks[s].iter_mut() {
@@ -3052,7 +3064,13 @@ pub fn arb_scenario() -> impl Strategy<Value = Scenario> {
         proptest::collection::vec(arb_conn(), 1..=2),
         proptest::collection::vec(any::<u8>(), 0..600),
     )
-        .prop_map(|((seed, net, cfg, one_endpoint), (acceptor, accept_cancel), conns, sched)| Scenario {
+        .prop_map(|((seed, net, mut cfg, one_endpoint), (acceptor, accept_cancel), conns, sched)| {
+            if conns.iter().any(|c| !c.storm.1.is_empty()) {
+                cfg.dgram_send_buf = 1_300 + cfg.dgram_send_buf % 2_700;
+            }
+            (seed, net, cfg, one_endpoint, acceptor, accept_cancel, conns, sched)
+        })
+        .prop_map(|(seed, net, cfg, one_endpoint, acceptor, accept_cancel, conns, sched)| Scenario {
             seed,
             net,
             cfg,
